@@ -332,6 +332,12 @@ def block_diagonalize(
             for key, value in fully_diagonalize.items()
         }
 
+    if not all(0 <= block < H.shape[0] for block in fully_diagonalize):
+        raise ValueError(
+            "`fully_diagonalize` must refer to diagonal blocks by their index "
+            f"(0 to {H.shape[0] - 1})."
+        )
+
     zero_order = (0,) * H.n_infinite
 
     for i in range(H.shape[0]):
